@@ -398,7 +398,7 @@ Fixpoint exec1 (en : genv) (st : gstmt) {struct st} : genv * outcome :=
       end
   | SRaise n => (en, ORaise (exn_of_name n))
   | SReturn e => match eval en e with Raise x => (en, ORaise x) | Ok v => (en, OReturn v) end
-  | SExpr _ | SAug _ _ _ | SFor _ _ _ => (en, ORaise OtherExn)      (* not used by class Weaver *)
+  | SExpr _ | SAug _ _ _ | SFor _ _ _ | SWhile _ _ | SBreak => (en, ORaise OtherExn)      (* not used by class Weaver *)
   end.
 
 Fixpoint exec (en : genv) (l : list gstmt) {struct l} : genv * outcome :=
